@@ -82,7 +82,13 @@ class Shim:
         self.p = None; self.errf.close(); self.errf = None
         if "AddressSanitizer" in rep: kind = "asan"
         elif "runtime error" in rep: kind = "ubsan"
-        elif "test condition failed" in rep or "VERIFY_CHECK" in rep or "Internal consistency check failed" in rep: kind = "verify_check"
+        elif "test condition failed" in rep or "VERIFY_CHECK" in rep or "Internal consistency check failed" in rep:
+            kind = "verify_check"
+            import re as _re
+            m = _re.search(r"([A-Za-z0-9_./-]+):(\d+): (?:test condition failed|Internal consistency check failed)?:? ?(.*)", rep)
+            if m:
+                cond = _re.sub(r"\s+", "", m.group(3))[:80]
+                rep = rep + "\n#0 0x0 in %s\n#1 0x0 in %s\n" % (os.path.basename(m.group(1)), cond or "check")
         elif rc == 3: kind = "timeout"
         elif rc is not None and rc < 0: kind = "signal%d" % (-rc)
         else: kind = "exit%s" % rc
